@@ -1,11 +1,13 @@
 (* C01 — witnesses for the findings at the plugin layer (see findings/C01-default-quota-routing.md). *)
 From Coq Require Import List ZArith Bool.
-From Verif Require Import Lib.Vec2 C01.Model C01.Spec C01.Plugin.
+From Verif Require Import Lib.VecN C01.Dim2 C01.Model C01.Spec C01.Plugin.
 Import ListNotations.
 Open Scope Z_scope.
 
-Definition ex_pp (c m : Z) (bound : bool) : ppod := mkPP (mkPod 1 (c, m) false bound false) 3.
-Definition ex_q3 : qshape := mkQ 3 0 false true (96, 160) (0, 0).
+Local Existing Instance D2.
+
+Definition ex_pp (c m : Z) (bound : bool) : ppod := mkPP (mkPod 1 (v2 c m) false bound false) 3.
+Definition ex_q3 : qshape := mkQ 3 0 false true (v2 96 160) (v2 0 0).
 
 (* sig 1 — a pod that arrived before its quota is counted twice: pod add (-> default quota), quota
    add, ANY update event before the next migrateDefaultQuotaGroupsPod run, the run *)
@@ -19,13 +21,13 @@ Definition ex_lost_delete : list pop :=
   [PlPodAdd (ex_pp 10 10 true); PlQuotaAdd ex_q3; PlPodDelete (ex_pp 10 10 true); PlMigrate].
 
 Lemma plugin_routing_refuted :
-  (pwf_history (pinit (1000, 1000) (1000, 1000)) ex_double_count = true /\
-   pstate_code (prun (pinit (1000, 1000) (1000, 1000)) ex_double_count) = 1 /\
-   r_req (st_r (ps_core (prun (pinit (1000, 1000) (1000, 1000)) ex_double_count)) 3) = (20, 20)) /\
-  (pwf_history (pinit (1000, 1000) (1000, 1000)) ex_stale_migrate = true /\
-   pstate_code (prun (pinit (1000, 1000) (1000, 1000)) ex_stale_migrate) = 1 /\
-   r_req (st_r (ps_core (prun (pinit (1000, 1000) (1000, 1000)) ex_stale_migrate)) 2) = (20, 20)) /\
-  (pwf_history (pinit (1000, 1000) (1000, 1000)) ex_lost_delete = true /\
-   pstate_code (prun (pinit (1000, 1000) (1000, 1000)) ex_lost_delete) = 1 /\
-   u_used (st_u (ps_core (prun (pinit (1000, 1000) (1000, 1000)) ex_lost_delete)) 3) = (10, 10)).
+  (pwf_history (pinit (v2 1000 1000) (v2 1000 1000)) ex_double_count = true /\
+   pstate_code (prun (pinit (v2 1000 1000) (v2 1000 1000)) ex_double_count) = 1 /\
+   r_req (st_r (ps_core (prun (pinit (v2 1000 1000) (v2 1000 1000)) ex_double_count)) 3) = (v2 20 20)) /\
+  (pwf_history (pinit (v2 1000 1000) (v2 1000 1000)) ex_stale_migrate = true /\
+   pstate_code (prun (pinit (v2 1000 1000) (v2 1000 1000)) ex_stale_migrate) = 1 /\
+   r_req (st_r (ps_core (prun (pinit (v2 1000 1000) (v2 1000 1000)) ex_stale_migrate)) 2) = (v2 20 20)) /\
+  (pwf_history (pinit (v2 1000 1000) (v2 1000 1000)) ex_lost_delete = true /\
+   pstate_code (prun (pinit (v2 1000 1000) (v2 1000 1000)) ex_lost_delete) = 1 /\
+   u_used (st_u (ps_core (prun (pinit (v2 1000 1000) (v2 1000 1000)) ex_lost_delete)) 3) = (v2 10 10)).
 Proof. vm_compute. repeat split; reflexivity. Qed.
